@@ -255,12 +255,76 @@ def _neg_bounds(fn_node):
     return out
 
 
+WINDOW_CLASSES = {
+    # name: (is_first, is_last, constraint on the window length n given W = nswin, OV = overlap)
+    "interior": (False, False, lambda m: m["n"] == m["W"]),
+    "first": (True, False, lambda m: m["n"] == m["W"]),
+    "last": (False, True, lambda m: m["OV"] < m["n"] <= m["W"]),     # a non-first last window is longer than the overlap (D1: stride = nswin - overlap)
+    "single": (True, True, lambda m: 1 <= m["n"] <= m["W"]),
+}
+BOX = {"W": (1, 12), "OV": (0, 6), "n": (1, 12)}
+
+
+def _class_decider(ev, is_first, is_last):
+    """Truth of a branch test on (first, last) for a window class: first == 0 iff is_first (else first > 0); last == ns iff is_last (else last < ns)."""
+    F, NS = Poly.sym("first"), Poly.sym("self.ns")
+
+    def decide(t):
+        if isinstance(t, ast.UnaryOp) and isinstance(t.op, ast.Not):
+            d = decide(t.operand)
+            return None if d is None else not d
+        if isinstance(t, ast.BoolOp):
+            ds = [decide(v) for v in t.values]
+            if isinstance(t.op, ast.And):
+                return False if any(d is False for d in ds) else (None if any(d is None for d in ds) else True)
+            return True if any(d is True for d in ds) else (None if any(d is None for d in ds) else False)
+        if isinstance(t, ast.Compare) and len(t.ops) == 1:
+            try:
+                p = ev.ev(t.left) - ev.ev(t.comparators[0])
+            except Undecided:
+                return None
+            op = type(t.ops[0])
+            sign = None   # sign of p: "zero" | "pos" | "neg"
+            if p == F:
+                sign = "zero" if is_first else "pos"
+            elif p == -F:
+                sign = "zero" if is_first else "neg"
+            elif p == ev.env["last"] - NS:
+                sign = "zero" if is_last else "neg"
+            elif p == NS - ev.env["last"]:
+                sign = "zero" if is_last else "pos"
+            if sign is None:
+                return None
+            return {ast.Eq: sign == "zero", ast.NotEq: sign != "zero", ast.Gt: sign == "pos", ast.GtE: sign in ("pos", "zero"),
+                    ast.Lt: sign == "neg", ast.LtE: sign in ("neg", "zero")}.get(op)
+        return None
+    return decide
+
+
+def _ramp_vectors(fi, ev, OV):
+    """names bound to hann(2*(overlap+1)+1)[1:overlap+1] (the rising half, end points dropped): {name: (def stmt, ok)}"""
+    out = {}
+    for st in walk_function(fi.node):
+        if isinstance(st, ast.Assign) and isinstance(st.targets[0], ast.Name):
+            v = st.value
+            if isinstance(v, ast.Subscript) and isinstance(v.slice, ast.Slice) and isinstance(v.value, ast.Call) and call_name(v.value) == "hann":
+                try:
+                    lo = ev.ev(v.slice.lower) if v.slice.lower is not None else Poly.const(0)
+                    up = ev.ev(v.slice.upper)
+                    npts = ev.ev(v.value.args[0])
+                except Undecided:
+                    continue
+                ok = (up - lo) == OV and npts == (OV + Poly.const(1)) * Poly.const(2) + Poly.const(1) and lo == Poly.const(1)
+                out[st.targets[0].id] = (st, ok, up - lo)
+    return out
+
+
 def d4_splicing(ctx):
-    ctx.rule("D4", "splicing ramps: length overlap; head only when first > 0, tail only when last < ns into the last `overlap` samples; no unproven -e bound")
+    ctx.rule("D4", "splicing amplitudes, per window class (interior / first / last / single): rising ramp on the first `overlap` samples iff the window has a "
+                   "predecessor, mirrored ramp on the last `overlap` samples iff it has a successor, one elsewhere; no unproven -e slice bound")
     repo = ctx.repo
     fi = repo.fn(CLS + ".firstlast_splicing")
     cfg = CFG(fi.node)
-    du = DefUse(fi.node, cfg)
     for sub, e, which in _neg_bounds(fi.node):
         gs = []
         for t, pol in cfg.guards(cfg.node_for(sub)):
@@ -270,79 +334,90 @@ def d4_splicing(ctx):
         ctx.check(pos, fi, sub, sub, "negative slice bound is guarded by e > 0",
                   f"slice bound -{src(e)} in `{src(sub)}`: for {src(e)} == 0 the slice [-0:] is the whole array (ValueError / wrong amplitudes with zero overlap)",
                   key="neg-bound:" + norm(e)[:40])
-    stores = [n for n in walk_function(fi.node) if isinstance(n, ast.Assign) and isinstance(n.targets[0], ast.Subscript)
-              and loc_name(n.targets[0].value) == "amp"]
-    if not stores:
-        raise AnchorMissing("firstlast_splicing: no store into the amplitude vector")
-    loops = [s for s in fi.node.body if isinstance(s, ast.For)]
-    names = [loc_name(e) for e in loops[0].target.elts] if loops and isinstance(loops[0].target, ast.Tuple) else ["first", "last"]
-    facts = _facts()
-    ev = Evaluator(facts=facts, resolve=_resolver(repo, fi))
-    OV = Poly.sym("self.overlap")
-    # amp length
-    amp_defs = [d for d in du.defs if d.var == "amp" and d.kind == "assign"]
-    amp_len = None
-    for d in amp_defs:
-        if isinstance(d.value, ast.Call) and call_name(d.value) == "ones" and d.value.args:
-            amp_len = ev.ev(d.value.args[0])
-    if amp_len is None:
-        raise AnalysisError("firstlast_splicing: amplitude vector is not np.ones(<length>)")
-    ctx.check(amp_len == Poly.sym(names[1]) - Poly.sym(names[0]), fi, amp_defs[0].stmt, f"len(amp) = {amp_len}", "one amplitude per window sample",
-              f"amplitude vector has length {amp_len}, not last - first", key="amp-len")
-    head = tail = 0
-    for st in stores:
-        sl = st.targets[0].slice
-        if not isinstance(sl, ast.Slice) or sl.step is not None:
-            raise AnalysisError(f"firstlast_splicing: store `{src(st)}` is not a plain slice store")
-        gs = []
-        for t, pol in cfg.guards(cfg.node_for(st)):
-            gs += conjuncts(t, pol)
-        gt = [("" if pol else "not ") + src(t) for t, pol in gs]
-        val = expand_name(du, st.value, st)
-        is_ramp = not (isinstance(val, ast.Constant))
-        if isinstance(st.value, ast.IfExp):
-            # `1 if first == 0 else w` : unconditional store whose value is conditional -> the store itself always happens
-            is_ramp = True
-        if sl.lower is None and sl.upper is not None:
-            head += 1
-            ln = ev.ev(sl.upper)
-            okg = any(g in (f"{names[0]} > 0", f"{names[0]} != 0", f"not {names[0]} == 0") for g in gt)
-            ctx.check(ln == OV, fi, st, st, "head ramp covers the first `overlap` samples", f"head ramp covers {ln} samples, not overlap", key="head-len")
-            ctx.check(okg and not isinstance(st.value, ast.IfExp), fi, st, st, "head ramp is written only for windows that have a predecessor",
-                      f"head store is not restricted to first > 0 (guards {gt}): the first window is faded in, or an unconditional store overwrites "
-                      "the other ramp on short windows", key="head-guard")
-        elif sl.upper is None and sl.lower is not None:
-            tail += 1
-            if isinstance(sl.lower, ast.UnaryOp) and isinstance(sl.lower.op, ast.USub):
-                start = amp_len - ev.ev(sl.lower.operand)
-            else:
-                start = ev.ev(sl.lower)
-            okg = any(g in (f"{names[1]} < self.ns", f"{names[1]} != self.ns", f"not {names[1]} == self.ns") for g in gt)
-            ctx.check(amp_len - start == OV, fi, st, st, "tail ramp covers the last `overlap` samples",
-                      f"tail ramp starts at {start}: it covers {amp_len - start} samples, not the final `overlap`", key="tail-len")
-            ctx.check(okg and not isinstance(st.value, ast.IfExp), fi, st, st, "tail ramp is written only for windows that have a successor (full-length windows)",
-                      f"tail store is not restricted to last < ns (guards {gt}): on a short last window it overwrites the head ramp", key="tail-guard")
-            v = src(st.value)
-            ctx.check("flip" in v, fi, st, st, "tail ramp is the mirrored head ramp", "tail ramp is not the mirror of the head ramp (amplitudes do not sum to one)",
-                      key="tail-mirror")
-        else:
-            raise AnalysisError(f"firstlast_splicing: store `{src(st)}` is neither a head nor a tail ramp")
-    ctx.check(head >= 1 and tail >= 1, fi, fi.node, f"{head} head / {tail} tail ramp stores", "both ramps are applied", "a ramp is never applied",
-              key="both-ramps")
-    # ramp length: hann(2*(overlap+1)+1)[1:overlap+1]
-    wdefs = [d for d in du.defs if d.var == "w" and d.kind == "assign"]
-    okw = False
-    for d in wdefs:
-        v = d.value
-        if isinstance(v, ast.Subscript) and isinstance(v.slice, ast.Slice) and isinstance(v.value, ast.Call) and call_name(v.value) == "hann":
-            lo, up = ev.ev(v.slice.lower) if v.slice.lower is not None else Poly.const(0), ev.ev(v.slice.upper)
-            n = ev.ev(v.value.args[0])
-            okw = (up - lo) == OV and n == (OV + Poly.const(1)) * Poly.const(2) + Poly.const(1) and lo == Poly.const(1)
-    ctx.check(okw, fi, wdefs[0].stmt if wdefs else fi.node, wdefs[0].stmt if wdefs else "w", "ramp is the rising half of a symmetric Hann window of 2(overlap+1)+1 points, end points dropped",
-              "ramp is not hann(2*(overlap+1)+1)[1:overlap+1]: w + flip(w) != 1", key="ramp-def")
-    asserts = [a for a in walk_function(fi.node) if isinstance(a, ast.Assert) and "flip" in src(a.test) and "1" in src(a.test)]
+    from sa.regions import Extractor, models, num, paint
+    OV, W = Poly.sym("self.overlap"), Poly.sym("self.nswin")
+    ev0 = Evaluator(facts=_facts(), resolve=_resolver(repo, fi))
+    ramps = _ramp_vectors(fi, ev0, OV)
+    if not ramps:
+        raise AnchorMissing("firstlast_splicing: Hann ramp definition not found")
+    for nm, (st, ok, ln) in ramps.items():
+        ctx.check(ok, fi, st, st, "ramp is the rising half of a symmetric Hann window of 2(overlap+1)+1 points, end points dropped",
+                  "ramp is not hann(2*(overlap+1)+1)[1:overlap+1]: w + flip(w) != 1", key="ramp-def")
+    asserts = [a for a in walk_function(fi.node) if isinstance(a, ast.Assert) and ("flip" in src(a.test) or "[::-1]" in src(a.test)) and "1" in src(a.test)]
     ctx.check(bool(asserts), fi, fi.node, "assert w + flipud(w) == 1", "complementarity of the ramps is asserted at run time",
               "the run-time assertion that the ramps sum to one is gone", key="ramp-assert")
+    loops = [s_ for s_ in walk_function(fi.node) if isinstance(s_, ast.For) and isinstance(s_.iter, ast.Attribute) and s_.iter.attr == "firstlast"]
+    if not loops:
+        raise AnchorMissing("firstlast_splicing: loop over self.firstlast not found")
+    tnames = [loc_name(e) for e in loops[0].target.elts] if isinstance(loops[0].target, ast.Tuple) else []
+    if len(tnames) != 2:
+        raise AnalysisError("firstlast_splicing: loop target is not (first, last)")
+    vec = sorted(ramps)[0]
+    n_models = 0
+    for cname, (is_first, is_last, constraint) in WINDOW_CLASSES.items():
+        F, N = Poly.sym("first"), Poly.sym("n")
+        ev = Evaluator(env={tnames[0]: F, tnames[1]: F + N, "first": F, "last": F + N}, facts=_facts(), resolve=_resolver(repo, fi))
+        ex = Extractor(ev, _class_decider(ev, is_first, is_last), {k: v[2] for k, v in ramps.items()})
+        ex.run(fi.node.body)
+        if not ex.yielded:
+            raise AnalysisError("firstlast_splicing: nothing is yielded")
+        ynode, elts, snap = ex.yielded[-1]
+        if not snap:
+            raise AnalysisError(f"firstlast_splicing [{cname}]: the yielded amplitude vector is not built from ones / slice stores / a profile slice")
+        amp = list(snap.values())[-1]
+        ctx.check(amp.length == N, fi, ynode, f"[{cname}] len(amp) = {amp.length}", "one amplitude per window sample", f"[{cname} window] amplitude vector has length {amp.length}, not last - first",
+                  key=f"amp-len:{cname}")
+        bad = None
+        facts = [lambda m: 2 * m["OV"] <= m["W"], lambda m: m["OV"] < m["W"], constraint]
+        for m in models(("W", "OV", "n"), facts, BOX):
+            n_models += 1
+            fval = 0 if is_first else 7
+            env = {"self.nswin": m["W"], "self.overlap": m["OV"], "n": m["n"], "first": fval, "self.ns": fval + m["n"] + (0 if is_last else 5)}
+            got = paint(amp, env)
+            if got is None:
+                raise AnalysisError(f"firstlast_splicing [{cname}]: amplitude model not evaluable for {m}")
+            for st_, txt, extent, vlen in ex.obligations:
+                pass
+            want = []
+            for p_ in range(m["n"]):
+                if not is_first and p_ < m["OV"]:
+                    want.append(("UP:" + vec, p_))
+                elif not is_last and p_ >= m["n"] - m["OV"]:
+                    want.append(("UP:" + vec, m["OV"] - 1 - (p_ - (m["n"] - m["OV"]))))
+                else:
+                    want.append(("ONE", 0))
+            diff = [p_ for p_ in range(m["n"]) if got[p_] != want[p_]]
+            if diff:
+                bad = (m, diff, got, want)
+                break
+        if bad:
+            m, diff, got, want = bad
+            p0 = diff[0]
+
+            def show(t):
+                return "1" if t[0] == "ONE" else (f"{vec}[{t[1]}]" if t[0].startswith("UP:") else t[0])
+            ctx.violation(fi, ynode, f"[{cname}] nswin={m['W']} overlap={m['OV']} window length={m['n']}",
+                          f"[{cname} window] with nswin={m['W']}, overlap={m['OV']} and a window of {m['n']} samples, sample {p0} of the window gets amplitude {show(got[p0])} "
+                          f"where {show(want[p0])} is required ({len(diff)} samples differ): the amplitudes of neighbouring windows no longer sum to one there", key=f"profile:{cname}", name_free=True)
+        else:
+            ctx.ok(fi, ynode, f"[{cname}] amplitude profile", f"{cname} window: ramps exactly where a neighbour overlaps, one elsewhere (all order types of the bounds, box {BOX})",
+                   key=f"profile:{cname}")
+        # a ramp stored into a slice of a different extent raises at run time
+        for st_, txt, extent, vlen in ex.obligations:
+            okx = True
+            wit = None
+            for m in models(("W", "OV", "n"), facts, BOX):
+                fval = 0 if is_first else 7
+                env = {"self.nswin": m["W"], "self.overlap": m["OV"], "n": m["n"], "first": fval, "self.ns": fval + m["n"] + (0 if is_last else 5)}
+                a, b = num(extent, env), num(vlen, env)
+                if a is None or b is None:
+                    continue
+                if a != b and not (a <= 0 and b <= 0):
+                    okx, wit = False, m
+                    break
+            ctx.check(okx, fi, st_, f"[{cname}] {txt[:60]}", "slice extent equals the length of the stored vector",
+                      f"[{cname} window] `{txt[:70]}` stores a vector into a slice of a different extent for {wit}: ValueError at run time", key=f"extent:{cname}:{norm(st_)[:30]}")
+    ctx.note(f"D4 evaluated the extracted interval model on {n_models} (nswin, overlap, window length) assignments in the box {BOX}")
 
 
 def d5_tscale(ctx):
